@@ -318,8 +318,8 @@ def corpus_cases():
 
 # Defects of the expression evaluator that were repaired in the library (known_findings.json,
 # status "fixed": exprtruth, exprmissing, strcasecmp, numtype, adddate, concatstr, nullarg,
-# condkeys, undefvar, filtertruth, mapmissing, missingcmp, and the $ifNull / extra-field parts of
-# laxargs): their classes no longer
+# condkeys, undefvar, filtertruth, mapmissing, missingcmp, minmaxtypes, sumbool, and the $ifNull /
+# extra-field parts of laxargs): their classes no longer
 # exist in Spec/ExprDomain.lean, so these inputs lie inside D (or the rules reject them and the
 # code must raise too).  They run as ordinary cases on every run, next to the
 # witnesses of the fixed findings; the old behaviour is a VIOLATION if it comes back.
@@ -400,6 +400,44 @@ REGRESSIONS = [
     ({'$map': {'input': '$l', 'in': '$zz'}}, [{'l': [1, 2]}, {'l': [1], 'zz': 5}, {'l': []}]),
     ({'$map': {'input': '$q', 'in': '$$this.n'}}, [{'q': [{'n': 1}, {'p': 2}]}, {'q': [{}]}]),
     ({'$map': {'input': '$l', 'in': {'$divide': [1, '$$this']}}}, [{'l': [1, 0]}, {'l': [2]}]),
+    # minmaxtypes (fix 94aa9ad): $min / $max order values of several types by the BSON order
+    # (null < numbers < strings < documents < arrays < booleans < dates), skip null and missing,
+    # keep the first of equal values; one bare array operand is ranged over, an array among
+    # several operands is one value
+    ({'$max': ['$a', '$s', '$f']}, [{'a': 1, 's': 'x', 'f': True}, {'a': 1, 's': 'x'}, {'a': 1},
+                                    {'s': '', 'f': False}, {'a': None}, {}]),
+    ({'$min': ['$a', '$s', '$f', None]}, [{'a': 1, 's': 'x', 'f': True}, {'s': 'x', 'f': True},
+                                          {'f': False}, {'a': None, 's': None}, {}]),
+    ({'$max': ['$t', '$f', '$a', '$l']}, [{'t': _T0, 'f': True, 'a': 5, 'l': [9]}, {'f': False, 'a': 5, 'l': [9]},
+                                          {'a': 5, 'l': []}, {'a': 5.5}]),
+    ({'$min': ['$t', '$f', '$l', '$s']}, [{'t': _T0, 'f': True, 'l': [0], 's': 'z'}, {'t': _T0, 'f': True, 'l': [0]},
+                                          {'t': _T0, 'f': True}, {'t': _T0}]),
+    ({'$max': '$x'}, [{'x': [1, 'x', True, None, [3]]}, {'x': [None, 'b', 'a', 2.5]}, {'x': [[1, 2], [1, 3], 7]},
+                      {'x': [None, None]}, {'x': []}, {'x': [_T0, True]}, {'x': [False, True, 'a']}]),
+    ({'$min': '$x'}, [{'x': [1, 'x', True, None, [3]]}, {'x': ['b', 'a', None]}, {'x': [[1, 2], [1], 'q']},
+                      {'x': [True, False]}, {'x': [_T0, gen_expr.DATES[3]]}]),
+    ({'$max': ['$a', '$b']}, [{'a': 1, 'b': 1.0}, {'a': 1.0, 'b': 1}, {'a': 2, 'b': 2.5}, {'a': -1}, {'b': 0}]),
+    ({'$min': ['$a', '$b']}, [{'a': 1, 'b': 1.0}, {'a': 1.0, 'b': 1}, {'a': 2, 'b': 2.5}, {'a': None, 'b': 3}]),
+    ({'$max': ['$l', '$a']}, [{'l': [1, 2], 'a': 3}, {'l': [], 'a': 3}, {'a': 3}]),
+    ({'$max': ['$l', '$m']}, [{'l': [1, 2], 'm': ['a']}, {'l': [1, 2], 'm': []}, {'l': [1, 'a'], 'm': [1, 2]},
+                              {'l': [1], 'm': [1, 0]}]),
+    ({'$max': []}, [{}]),
+    ({'$min': ['$zz', None]}, [{}]),
+    ({'$cond': [{'$gt': [{'$max': ['$a', '$s']}, 5]}, 'str-or-big', 'small']}, [{'a': 1, 's': 'x'}, {'a': 1}, {'a': 7}]),
+    # sumbool (fix 2f66991): $sum / $avg range over the numbers only; booleans, like strings,
+    # dates, arrays, documents, null and missing operands, are ignored
+    ({'$sum': ['$a', '$f']}, [{'a': 1, 'f': True}, {'a': 1, 'f': False}, {'f': True}, {'a': 2.5, 'f': True}, {}]),
+    ({'$avg': ['$a', '$f']}, [{'a': 1, 'f': True}, {'a': 3, 'f': False}, {'f': True}, {'f': False}, {}]),
+    ({'$sum': '$x'}, [{'x': [1, True, 2.5, False]}, {'x': [True, False]}, {'x': [True, 'a', None, [1], {'n': 1}]},
+                      {'x': []}, {'x': [1, 2, 3]}]),
+    ({'$avg': '$x'}, [{'x': [1, True, 2, False]}, {'x': [True, False]}, {'x': [True, 'a', None, 4]},
+                      {'x': []}, {'x': [1, 2, 3]}, {'x': [0.5, 1]}]),
+    ({'$sum': ['$a', '$s', '$t', '$l', '$d', None, '$zz', '$b']},
+     [{'a': 1, 's': 'x', 't': _T0, 'l': [5], 'd': {'n': 1}, 'b': 0.5}, {'s': 'x'}, {}]),
+    ({'$avg': ['$a', '$s', '$f', '$b']}, [{'a': 1, 's': '1', 'f': True, 'b': 2}, {'s': '1', 'f': True}]),
+    ({'$sum': []}, [{}]),
+    ({'$avg': []}, [{}]),
+    ({'$add': [{'$sum': ['$f', '$a']}, {'$ifNull': [{'$avg': ['$f']}, 10]}]}, [{'f': True, 'a': 1}, {'f': False}]),
 ]
 
 
